@@ -288,7 +288,7 @@ func runC06(c *Ctx) {
 			}
 		}
 		if len(reasons) < 5 {
-			anchorFail("C06-D7: found %d Reason constants in package eio, expected at least 5", len(reasons))
+			c.Undecided("C06-D7: found %d Reason constants in package eio, expected at least 5", len(reasons))
 		}
 		already := map[string]bool{unq(p.ConstVal("eio", "ReasonTransportClose")): true, unq(p.ConstVal("eio", "ReasonTransportError")): true}
 		for _, tn := range []string{"serverSocket", "clientSocket"} {
